@@ -113,6 +113,7 @@ type Policy struct {
 	ProofType string `json:"proof_type"` // serial | parallel
 	Cache     int    `json:"cache"`      // LRU size, 0 = shipped
 	RestartAt []int  `json:"restart_at"` // stop+reopen after these block indexes
+	Reader    bool   `json:"reader"`     // slow disk + concurrent API reader: while the block's state commit waits at the stalled store, every state key and account the block changed is read through the read-write ledger (what the JSON-RPC / gRPC account and storage queries do)
 }
 
 type replica struct {
@@ -273,6 +274,38 @@ var errWedged = fmt.Errorf("no ExecutedEvent within the watchdog window")
 // execute feeds one block and waits for the executed event.
 func (r *replica) execute(ev *pb.CommitEvent, watchdog time.Duration) (*blockResult, error) {
 	r.exec.ExecuteBlock(cloneCommit(ev))
+	select {
+	case e := <-r.evCh:
+		res := &blockResult{Height: e.Block.BlockHeader.Number, Hash: e.Block.BlockHash.String(), Header: e.Block.BlockHeader, Meta: e.InterchainMeta, TxHashes: e.TxHashList}
+		for _, h := range e.TxHashList {
+			rc, err := r.lg.GetReceipt(h)
+			if err != nil {
+				return res, fmt.Errorf("receipt of %s missing after execution: %w", h.String()[:10], err)
+			}
+			res.Receipts = append(res.Receipts, rc)
+		}
+		r.height = res.Height
+		return res, nil
+	case <-time.After(watchdog):
+		return nil, errWedged
+	}
+}
+
+// executeWithReader executes one block with the state store stalled; once the block's state commit is waiting
+// there (flushed, not committed), touch is called (the concurrent reader), then the disk is released.
+func (r *replica) executeWithReader(ev *pb.CommitEvent, watchdog time.Duration, touch func()) (*blockResult, error) {
+	r.stateKV.Stall()
+	r.exec.ExecuteBlock(cloneCommit(ev))
+	deadline := time.Now().Add(watchdog)
+	for r.stateKV.StalledWriters() < 1 {
+		if time.Now().After(deadline) {
+			r.stateKV.Release()
+			return nil, errWedged
+		}
+		time.Sleep(50 * time.Microsecond) // wall-clock poll of the executor's own goroutines; never influences a verdict
+	}
+	touch()
+	r.stateKV.Release()
 	select {
 	case e := <-r.evCh:
 		res := &blockResult{Height: e.Block.BlockHeader.Number, Hash: e.Block.BlockHash.String(), Header: e.Block.BlockHeader, Meta: e.InterchainMeta, TxHashes: e.TxHashList}
